@@ -635,6 +635,9 @@ class Interp:
                 return [("val", st, FutureV(fn, args, kwargs, "coro"))]
             if any(d.split(".")[-1] == "contextmanager" for d in info.decorators):
                 return [("val", st, FutureV(fn, args, kwargs, "ctxmgr"))]
+            if self.is_generator(info):
+                # a generator function: nothing runs at the call; `for ... in` drives the body (see _for_generator)
+                return [("val", st, FutureV(fn, args, kwargs, "gen"))]
             if isinstance(fn, FuncV) and not getattr(fn, "raw", False) and info.decorators:
                 # repo-defined decorators (`@_guard` under the registry decorator): the name is bound to what the
                 # decorator returned, so the call goes through the wrapper it builds around the raw function
@@ -788,6 +791,12 @@ class Interp:
             prop = self.p.find_prop(qual, name)
             if prop is not None and "get" in prop:
                 return outs + self.call_func(st, BoundV(base, prop["get"]), [], {}, node)
+            dp = self.dyn_prop(qual, name)
+            if dp is not None:
+                fget = dp.args[0] if dp.args else dp.kwargs.get("fget")
+                if fget is None or (isinstance(fget, Const) and fget.value is None):
+                    return outs + [self.raise_(st, AttributeError, node, f"unreadable attribute {name}")]
+                return outs + self.call(st, fget, [base], {}, node)
             loc = (base.key(), "a", name)
             if loc in st.mem:
                 return outs + [("val", st, st.mem[loc])]
@@ -826,6 +835,36 @@ class Interp:
             return outs + [("val", st, st.mem[loc])]
         # builtin / external typed receivers: methods come from the external model
         return outs + [("val", st, self.ext.ext_attr(self, st, base, name, node))]
+
+    def dyn_prop(self, qual: str, name: str):
+        """The property object a repo factory built at class creation (`x = _make_property(...)` in a class
+        body), or None. The class-body call is evaluated once, in the module of the class."""
+        cache = self.__dict__.setdefault("_dynprops", {})
+        key = (qual, name)
+        if key not in cache:
+            val = None
+            for c in self.p.mro(qual):
+                if c.startswith("ext:"):
+                    continue
+                cinfo = self.p.classes[c]
+                if name in cinfo.props or name in cinfo.methods:
+                    break
+                expr = cinfo.class_attrs.get(name)
+                if expr is None:
+                    continue
+                anchor = next(iter(cinfo.methods.values()), None)
+                if isinstance(expr, ast.Call) and anchor is not None:
+                    s0 = self.new_state()
+                    s0.frames = ({"__func__": anchor, "__closure__": None},)
+                    try:
+                        outs = self.ev(expr, s0)
+                    except AnalysisError:
+                        outs = []
+                    if len(outs) == 1 and outs[0][0] == "val" and isinstance(outs[0][2], ExtObj) and outs[0][2].cls == "property":
+                        val = outs[0][2]
+                break
+            cache[key] = val
+        return cache[key]
 
     def enum_method(self, base: EnumMemV, name: str):
         ver = base.version or self.ctx.version
@@ -919,6 +958,12 @@ class Interp:
                 for kind, s, v in self.call_func(st, BoundV(base, prop["set"]), [val], {}, node):
                     res.append(("next" if kind == "val" else kind, s, v))
                 return outs + res
+            dp = self.dyn_prop(ty[1], name) if prop is None else None
+            if dp is not None:
+                fset = dp.args[1] if len(dp.args) > 1 else dp.kwargs.get("fset")
+                if fset is None or (isinstance(fset, Const) and fset.value is None):
+                    return outs + [self.raise_(st, AttributeError, node, f"can't set attribute {name}")]
+                return outs + [("next" if kind == "val" else kind, s, v) for kind, s, v in self.call(st, fset, [base, val], {}, node)]
         self.emit(st, "store", name, node, recv=base, args=(val,), with_facts=True)
         st.mem[(base.key(), "a", name)] = val
         return outs + [("next", st, None)]
@@ -1493,6 +1538,39 @@ class Interp:
                 truths = [self.truth(s2, r[0]) for r in rows]
                 if all(t is not None for t in truths):
                     return [("val", s2, Const(all(truths) if node.func.id == "all" else any(truths)))]
+            # undecided elements over a short, exactly known iterable: the and- / or-chain of the elements
+            comp = node.args[0]
+            if len(comp.generators) == 1 and not comp.generators[0].ifs and not comp.generators[0].is_async:
+                gen = comp.generators[0]
+                its = self.ev(gen.iter, st.copy())
+                items = self._exact_items(its[0][2]) if len(its) == 1 and its[0][0] == "val" else None
+                if items is not None and 0 < len(items) <= 6:
+                    is_all = node.func.id == "all"
+
+                    def chain(i, s):
+                        if i == len(items):
+                            return [("val", s, Const(is_all))]
+                        r = self.assign_target(s, gen.target, items[i], gen.target)
+                        if len(r) != 1 or r[0][0] != "next":
+                            return None
+                        outs = []
+                        for kind, s1, v in self.ev(comp.elt, r[0][1]):
+                            if kind != "val":
+                                outs.append((kind, s1, v))
+                                continue
+                            for s2, t in self.branch(s1, v):
+                                if t == is_all:
+                                    sub = chain(i + 1, s2)
+                                    if sub is None:
+                                        return None
+                                    outs.extend(sub)
+                                else:
+                                    outs.append(("val", s2, Const(not is_all)))
+                        return outs
+
+                    chained = chain(0, its[0][1])
+                    if chained is not None:
+                        return chained
         # super().method(...)
         outs_fn = self.ev_callee(node.func, st)
         res: List[Outcome] = []
@@ -1865,6 +1943,8 @@ class Interp:
                 else:
                     res.extend(self.store_item(s, vals[0], vals[1], val, tgt))
             return res
+        if isinstance(tgt, (ast.Tuple, ast.List)) and sum(isinstance(e, ast.Starred) for e in tgt.elts) == 1:
+            return self._assign_starred(st, tgt, val, node)
         if isinstance(tgt, (ast.Tuple, ast.List)):
             n = len(tgt.elts)
             outs: List[Outcome] = []
@@ -1898,6 +1978,48 @@ class Interp:
         if isinstance(tgt, ast.Starred):
             return self.assign_target(st, tgt.value, Unknown("list"), node)
         raise AnalysisError(f"unsupported assignment target {type(tgt).__name__}")
+
+    def _assign_starred(self, st: State, tgt, val: V, node) -> List[Outcome]:
+        """`a, *rest, y, z = seq`: the fixed targets get seq[0..a-1] and the last b elements, the starred one the
+        list in between - the same values the equivalent slices `seq[:a]`, `seq[a:-b]`, `seq[-b:]` give."""
+        k = next(i for i, e in enumerate(tgt.elts) if isinstance(e, ast.Starred))
+        a, b = k, len(tgt.elts) - k - 1
+        outs: List[Outcome] = []
+        if isinstance(val, Const) and isinstance(val.value, (tuple, list)):
+            val = TupleV([Const(x) for x in val.value])
+        if isinstance(val, TupleV) or (isinstance(val, ListV) and val.items is not None):
+            if len(val.items) < a + b:
+                return [self.raise_(st, ValueError, node, f"not enough values to unpack (expected at least {a + b}, got {len(val.items)})")]
+            its = list(val.items)
+            head, mid, tail = its[:a], ListV(its[a : len(its) - b], label=f"star:{self.where(st, node)}"), its[len(its) - b :]
+        else:
+            if self.ext.min_len(self, st, val) < a + b:
+                outs.append(self.raise_(st.copy(), ValueError, node, f"unpacking {unparse(node)[:50]}: the value is not known to have at least {a + b} elements"))
+            elem = getattr(val, "elem", None)
+            site = self.where(st, node)
+            head = [self.ext.unpack_elem(self, st, val, i, elem, node) for i in range(a)]
+            mid = ListV(None, elem=elem, label=f"slice:{site}:{val.key()!r}:star")
+            mid.slice_of = val
+            mid.slice_bounds = {**({"lower": Const(a)} if a else {}), **({"upper": Const(-b)} if b else {})}
+            tail = []
+            if b:
+                last = ListV(None, elem=elem, label=f"slice:{site}:{val.key()!r}:tail")
+                last.slice_of = val
+                last.slice_bounds = {"lower": Const(-b)}
+                last.exactlen = b
+                last.minlen = b
+                tail = [self.ext.unpack_elem(self, st, last, i, elem, node) for i in range(b)]
+        targets = list(tgt.elts[:k]) + [tgt.elts[k].value] + list(tgt.elts[k + 1 :])
+        cur: List[Outcome] = [("next", st, None)]
+        for t, v in zip(targets, head + [mid] + tail):
+            nxt = []
+            for kind, s2, x in cur:
+                if kind != "next":
+                    nxt.append((kind, s2, x))
+                else:
+                    nxt.extend(self.assign_target(s2, t, v, node))
+            cur = nxt
+        return outs + cur
 
     def st_If(self, node, st):
         def fn(s, v):
@@ -1977,6 +2099,9 @@ class Interp:
             if kind != "val":
                 results.append((kind, s, itv))
                 continue
+            if isinstance(itv, FutureV) and itv.kind == "gen":
+                results.extend(self._for_generator(node, s, itv))
+                continue
             if self.trace_iters and isinstance(itv, V) and rooted(itv.args[0].key() if isinstance(itv, ExtObj) and itv.cls.startswith("dict_") and itv.args else itv.key()):
                 # iteration over long-lived state: recorded for the "no iteration over what another thread grows" rule
                 self.emit(s, "iter", "for", node, recv=itv)
@@ -2045,6 +2170,45 @@ class Interp:
 
     st_AsyncFor = st_For
 
+    def is_generator(self, info) -> bool:
+        cache = self.__dict__.setdefault("_gen_cache", {})
+        if info.qual not in cache:
+            found = False
+            todo = [info.node.body] if isinstance(info.node, ast.Lambda) else list(info.node.body)
+            while todo and not found:
+                n = todo.pop()
+                if isinstance(n, (ast.FunctionDef, ast.AsyncFunctionDef, ast.Lambda, ast.ClassDef)):
+                    continue
+                if isinstance(n, (ast.Yield, ast.YieldFrom)):
+                    found = True
+                todo.extend(ast.iter_child_nodes(n))
+            cache[info.qual] = found
+        return cache[info.qual]
+
+    def _for_generator(self, node, st, gen: FutureV):
+        """`for x in genfunc(...): BODY` for a repo generator function: the generator body is interpreted and
+        BODY runs, in the caller's frame, at every `yield` (ev_Yield). Leaving BODY by break / return / an
+        exception closes the generator: GeneratorExit is raised at the yield, as CPython does on release."""
+        hook = {"mode": "for", "node": node, "target": node.target, "depth": len(st.frames), "stack": len(st.stack), "id": id(node) ^ len(st.events)}
+        self.yield_stack.append(hook)
+        try:
+            outs = self.call_func(st, gen.fn, list(gen.args), gen.kwargs, node)
+        finally:
+            self.yield_stack.pop()
+        res = []
+        for kind, s, v in outs:
+            pend = [n for n in s.notes if n[0] == "ctl" and n[1] == hook["id"]]
+            if pend:
+                s.notes = tuple(n for n in s.notes if not (n[0] == "ctl" and n[1] == hook["id"]))
+            if kind == "raise" and pend and v.cls is GeneratorExit:
+                k2, v2 = pend[-1][2], pend[-1][3]
+                res.append(("next", s, None) if k2 == "break" else (k2, s, v2))
+            elif kind == "val":
+                res.extend(self.exec_block(node.orelse, s) if node.orelse else [("next", s, None)])
+            else:
+                res.append((kind, s, v))
+        return self.dedupe(res)
+
     def _with_generator_cm(self, node, st, item, cm: FutureV):
         """`with cm(...) as x: BODY` for a repo @contextmanager generator: the generator body is interpreted
         and BODY runs, in the caller's frame, where it yields (ev_Yield)."""
@@ -2083,7 +2247,9 @@ class Interp:
             s.frames = s.frames[: hook["depth"]]
             s.stack = s.stack[: hook["stack"]]
             wnode = hook["node"]
-            self.emit(s, "with_enter", "with", wnode, recv=v)
+            is_for = hook.get("mode") == "for"
+            if not is_for:
+                self.emit(s, "with_enter", "with", wnode, recv=v)
             starts = self.assign_target(s, hook["target"], v, wnode) if hook["target"] is not None else [("next", s, None)]
             # the with body runs outside the generator: an inner `with` of the body has its own hook
             saved = self.yield_stack
@@ -2101,9 +2267,17 @@ class Interp:
                 if k2 == "cut":
                     res.append((k2, s2, v2))
                     continue
-                self.emit(s2, "with_exit", "with", wnode, extra=k2)
+                if not is_for:
+                    self.emit(s2, "with_exit", "with", wnode, extra=k2)
                 s2.frames = s2.frames[: hook["depth"]] + tuple(dict(f) for f in gen_frames)
                 s2.stack = s2.stack[: hook["stack"]] + gen_stack
+                if is_for:
+                    if k2 in ("next", "continue"):
+                        res.append(("val", s2, Const(None)))
+                    else:
+                        s2.notes = s2.notes + (("ctl", hook["id"], k2, v2),)
+                        res.append(self.raise_(s2, GeneratorExit, node, "the loop over the generator was left: the generator is closed"))
+                    continue
                 if k2 == "next":
                     res.append(("val", s2, Const(None)))
                 elif k2 == "raise":
